@@ -277,7 +277,9 @@ impl<'tcx> Cx<'tcx> {
             while sp.from_expansion() && guard < 64 {
                 let d = sp.ctxt().outer_expn_data();
                 if let ExpnKind::Macro(_, name) = d.kind {
-                    last_macro = Some((name.to_string(), d.call_site));
+                    let full = name.to_string();
+                    let short = full.rsplit("::").next().unwrap_or(&full).to_string();
+                    last_macro = Some((short, d.call_site));
                 }
                 sp = d.call_site;
                 guard += 1;
